@@ -36,6 +36,12 @@ pub enum Act {
     Wait { ms: u16 },
     Next,
     Crash { node: u8 },
+    /// Byzantine leader only: block b (parent = tip) to the nodes in the mask, a twin b' (other
+    /// parent) to the others, Byzantine notar votes for each to the respective group
+    Equivocate { split_mask: u16, parent2: u16, flush: u8 },
+    /// deliver every in-flight message of one class (0..=4 vote kinds, 5 = certificates) for the
+    /// slot cursor+dslot to the nodes in the mask
+    DeliverWhere { what: u8, dslot: i8, to_mask: u16 },
 }
 
 #[derive(Clone, Debug, Serialize, Deserialize)]
@@ -97,13 +103,15 @@ impl Property for C01 {
             3 => prop_oneof![0u16..300, 700u16..1300].prop_map(|ms| Act::Wait { ms }),
             4 => Just(Act::Next),
             1 => any::<u8>().prop_map(|node| Act::Crash { node }),
+            4 => (any::<u16>(), any::<u16>(), 0u8..3).prop_map(|(split_mask, parent2, flush)| Act::Equivocate { split_mask, parent2, flush }),
+            8 => (0u8..6, prop_oneof![4 => Just(0i8), 2 => Just(-1i8), 1 => Just(-2i8)], any::<u16>()).prop_map(|(what, dslot, to_mask)| Act::DeliverWhere { what, dslot, to_mask }),
         ];
-        (stakes, prop::collection::vec(any::<u8>(), 3), 0u8..=2, any::<u64>(), prop::collection::vec(act, 1..60))
+        (stakes, prop::collection::vec(prop_oneof![3 => 0u8..3, 1 => any::<u8>()], 3), prop_oneof![1 => Just(0u8), 3 => Just(1u8), 2 => Just(2u8)], any::<u64>(), prop::collection::vec(act, 1..70))
             .prop_map(|(stakes, byz_order, byz_count, seed, acts)| Case { stakes, byz_order, byz_count, seed, acts })
             .boxed()
     }
     fn max_shrink_iters(&self) -> u32 {
-        200
+        60
     }
     fn run(&self, case: &Case) -> Outcome {
         match catch(|| with_runtime(true, case.seed, run(case))) {
@@ -253,10 +261,17 @@ impl World {
     /// The cross-node invariant.
     fn check(&mut self, out: &mut Outcome, step: usize) -> bool {
         let mut fin: BTreeMap<u64, BTreeMap<u64, Vec<usize>>> = BTreeMap::new(); // slot -> tag -> nodes
+        // slots finalised *directly* (by certificates). A slot whose block is finalised only
+        // through a descendant may legitimately also carry a skip certificate: the protocol lets a
+        // leader build on a notar-fallback-certified block of a skip-certified slot.
+        let mut direct: BTreeMap<u64, Vec<usize>> = BTreeMap::new();
         let mut skipped: BTreeMap<u64, Vec<usize>> = BTreeMap::new();
         for i in 0..self.n {
             let Some(node) = self.nodes[i].as_ref() else { continue };
             for (f, imp, _) in node.pool.verif_fin_log() {
+                if let Some(b) = f {
+                    direct.entry(b.0.inner()).or_default().push(i);
+                }
                 for b in f.iter().chain(imp.iter()) {
                     if b.0.inner() == 0 {
                         continue;
@@ -285,8 +300,8 @@ impl World {
                 out.violate("C01/conflicting-finalisation", format!("step {step}: slot {slot} finalised with different blocks: {tags:?} (tag -> nodes)"));
                 return false;
             }
-            if let Some(nodes) = skipped.get(slot) {
-                out.violate("C01/finalised-and-skip-certified", format!("step {step}: slot {slot} is finalised at nodes {:?} and skip-certified at nodes {nodes:?}", tags.values().next()));
+            if let (Some(nodes), Some(dn)) = (skipped.get(slot), direct.get(slot)) {
+                out.violate("C01/finalised-and-skip-certified", format!("step {step}: slot {slot} is finalised by certificates at nodes {dn:?} and skip-certified at nodes {nodes:?}"));
                 return false;
             }
         }
@@ -471,6 +486,79 @@ async fn run(case: &Case) -> Outcome {
                 for to in mask_nodes(*to_mask, n) {
                     if !w.announce(&mut out, &b, to).await {
                         return finish(out, w);
+                    }
+                }
+            }
+            Act::Equivocate { split_mask, parent2, flush } => {
+                let slot = cursor;
+                let leader = w.leader(slot);
+                if !w.byz[leader] {
+                    continue;
+                }
+                let (t1, t2) = (slot * 10 + 1, slot * 10 + 2);
+                for (t, use_tip) in [(t1, true), (t2, false)] {
+                    if !w.blocks.iter().any(|b| b.slot == slot && b.tag == t) {
+                        let mut cands: Vec<(u64, u64)> = vec![(0, 0)];
+                        cands.extend(w.blocks.iter().filter(|b| b.slot < slot).map(|b| (b.slot, b.tag)));
+                        let parent = if use_tip && tip.0 < slot { tip } else { cands[pick_idx(*parent2, cands.len())] };
+                        w.blocks.push(Blk { slot, tag: t, parent });
+                    }
+                }
+                w.competing = true;
+                w.equivocation = true;
+                let b1 = w.blocks.iter().find(|b| b.slot == slot && b.tag == t1).cloned().unwrap();
+                let b2 = w.blocks.iter().find(|b| b.slot == slot && b.tag == t2).cloned().unwrap();
+                for to in 0..n {
+                    let b = if split_mask >> to & 1 == 1 { &b1 } else { &b2 };
+                    if !w.announce(&mut out, b, to).await {
+                        return finish(out, w);
+                    }
+                    // the Byzantine validators vote for whatever each node saw
+                    let bz: Vec<usize> = (0..n).filter(|i| w.byz[*i]).collect();
+                    for signer in bz {
+                        let spec = VoteSpec { kind: VKind::Notar, slot, block: b.tag, signer };
+                        w.wire_votes.entry((VKind::Notar, slot, b.tag)).or_default().insert(signer);
+                        let m = ConsensusMessage::Vote(make_vote(spec));
+                        if !w.deliver(&mut out, &ep, &m, to).await {
+                            return finish(out, w);
+                        }
+                    }
+                }
+                tip = (slot, t1);
+                for _ in 0..*flush {
+                    if !w.collect(&mut out, &ep).await {
+                        return finish(out, w);
+                    }
+                    let msgs = std::mem::take(&mut w.inflight);
+                    for m in &msgs {
+                        for to in 0..n {
+                            if !w.deliver(&mut out, &ep, m, to).await {
+                                return finish(out, w);
+                            }
+                        }
+                    }
+                }
+            }
+            Act::DeliverWhere { what, dslot, to_mask } => {
+                if !w.collect(&mut out, &ep).await {
+                    return finish(out, w);
+                }
+                let slot = (cursor as i64 + *dslot as i64).max(1) as u64;
+                let kinds = [VKind::Notar, VKind::NotarFallback, VKind::Skip, VKind::SkipFallback, VKind::Final];
+                let msgs: Vec<ConsensusMessage> = w
+                    .inflight
+                    .iter()
+                    .filter(|m| match m {
+                        ConsensusMessage::Vote(v) => *what < 5 && v.slot().inner() == slot && classify_vote(v).kind == kinds[*what as usize],
+                        ConsensusMessage::Cert(c) => *what == 5 && c.slot().inner() == slot,
+                    })
+                    .cloned()
+                    .collect();
+                for m in &msgs {
+                    for to in mask_nodes(*to_mask, n) {
+                        if !w.deliver(&mut out, &ep, m, to).await {
+                            return finish(out, w);
+                        }
                     }
                 }
             }
